@@ -99,10 +99,25 @@ def apply_devs(nodes, devs):
     return out
 
 
+def typed_shapes():
+    """Graphs with registry points, implementations, datasources built on specs, parsers and consumers (the shapes
+    of the C03 fault enumeration plus two spec-consumer chains): recorded failures are attributed through
+    get_registry_points, so the attribution must not depend on the driver or on the order of evaluation either."""
+    from props import c03
+    out = dict((k, v) for k, v in c03.SHAPES().items() if len(v) <= 5)
+    ds = lambda **k: dict({"t": "datasource", "decl": []}, **k)
+    out["rp-ds-consumer"] = [ds(), {"t": "rp", "impl": [0]}, {"t": "datasource", "decl": [1]}, {"t": "combiner", "decl": [2]}]
+    out["rp-ds-consumer2"] = [ds(), {"t": "rp", "impl": [0]}, {"t": "datasource", "decl": [1]}, {"t": "plain", "decl": [2]},
+                              {"t": "rule", "decl": [3]}]
+    return out
+
+
 def units(tier, seed):
     b = BOUNDS[tier]
     fams = families(b["max_nodes"])
     us = [{"part": "selftest"}]
+    for name in sorted(typed_shapes()):
+        us.append({"part": "typed", "shape": name})
     for f in fams:
         us.append({"part": "order+hash", "family": f, "t": "plain"})
     for f in fams[:8]:
@@ -701,6 +716,26 @@ def run_unit(unit, tier):
                 c["schedule"] = v[3]
                 res.violation(v[0], c, v[1], v[2], {"ctx": unit.get("ctx"), "t": unit["t"]})
         return res
+    if part == "typed":
+        base = typed_shapes()[unit["shape"]]
+        sites = [i for i, nd in enumerate(base) if nd["t"] != "rp" and nd.get("elems") is None]
+        placements = [None] + [(i, k) for i in sites for k in ("error", "cpe", "content")]
+        for pl in placements:
+            nodes = [dict(nd) for nd in base]
+            if pl is not None:
+                nodes[pl[0]]["out"] = pl[1]
+            case = {"kind": "order+hash", "family": ["typed", unit["shape"]], "nodes": nodes}
+            try:
+                vio, nexec, nout = check_order_hash(case, res)
+            except Exception:
+                import traceback
+                vio, nexec, nout = [("harness:raises", "no exception", traceback.format_exc()[-900:], None)], 0, 0
+            res.case(nontrivial=nexec >= 2, outcome="typed:%d" % nout, sample=case if pl is not None and res.evals % 7 == 2 else None)
+            for v in vio:
+                c = dict(case)
+                c["schedule"] = v[3]
+                res.violation(v[0], c, v[1], v[2], {"ctx": None, "t": "typed"})
+        return res
     if part == "pool":
         nodes, comps = compose(unit["family"], unit["t"], unit.get("ctx"))
         cap = 6000 if tier == "quick" else 150000
@@ -768,7 +803,7 @@ def replay(case):
     kind = case["kind"]
     if kind == "order+hash":
         vio, _, _ = check_order_hash(case)
-        feats = {"ctx": case.get("ctx"), "t": case["nodes"][0]["t"]}
+        feats = {"ctx": case.get("ctx"), "t": "typed" if case["family"][0] == "typed" else case["nodes"][0]["t"]}
         return [{"clause": v[0], "case": case, "expected": v[1], "observed": v[2], "features": feats} for v in vio]
     if kind == "pool":
         vio, _, _, _ = check_pool(case, 0)
